@@ -253,10 +253,18 @@ impl ArrivalBound for Curve {
             let prefix = delta / self.largest_known_distance();
             let prefix_jobs = prefix as usize * self.jobs_in_largest_known_distance();
             let tail = delta % self.largest_known_distance();
-            if tail > self.min_job_separation() {
+            if tail.is_zero() {
+                // An exact multiple of the largest known distance: the last
+                // repetition is resolved by lookup, too. This differs from
+                // `prefix_jobs` only if the delta-min vector ends in a plateau
+                // (several job counts with the same minimum distance), in
+                // which case those jobs fit only into a strictly longer interval.
+                prefix_jobs - self.jobs_in_largest_known_distance()
+                    + self.lookup_arrivals(self.largest_known_distance())
+            } else if tail > self.min_job_separation() {
                 prefix_jobs + self.lookup_arrivals(tail) as usize
             } else {
-                prefix_jobs + tail.is_non_zero() as usize
+                prefix_jobs + 1
             }
         } else {
             0
